@@ -515,6 +515,17 @@ func (x *Exec) callStatic1(st *State, e *ast.CallExpr, callee *types.Func, recvE
 	x.note("call-without-contract:" + q)
 	if !x.funcIsPure(callee) {
 		x.havocHeap(st, "call "+q, nil)
+		for i, a := range args {
+			if kindOf(a.T) == kSlice && i < len(e.Args) {
+				post := &Value{T: a.T, L: copyLeaves(a.L)}
+				for p, t := range post.L {
+					if p == "arr" || strings.HasPrefix(p, "arr.") {
+						post.L[p] = x.b.Fresh("hv."+p, t.Sort)
+					}
+				}
+				x.writeBackSlice(st, e.Args[i], post)
+			}
+		}
 	}
 	return x.freshResults(st, sig, strTrimPkg(q))
 }
@@ -777,13 +788,34 @@ func (x *Exec) runDefers(st *State, fr *fnFrame) *State {
 	x.frames = append(x.frames, &fnFrame{qual: fr.qual + "$defer", sig: fr.sig, results: fr.results})
 	for i := len(ds) - 1; i >= 0 && st != nil; i-- {
 		d := ds[i]
-		if lit, ok := d.call.Fun.(*ast.FuncLit); ok {
-			st = x.execBlock(st, lit.Body.List)
+		run := func(s *State) *State {
+			if lit, ok := d.call.Fun.(*ast.FuncLit); ok {
+				return x.execBlock(s, lit.Body.List)
+			}
+			x.evalMulti(s, d.call)
+			if x.infeasible(s) {
+				return nil
+			}
+			return s
+		}
+		if d.cond == nil {
+			st = run(st)
 			continue
 		}
-		x.evalMulti(st, d.call)
-		if x.infeasible(st) {
-			st = nil
+		yes := st.clone()
+		x.assume(yes, d.cond)
+		no := st
+		x.assume(no, x.b.Not(d.cond))
+		var ry *State
+		if !x.infeasible(yes) {
+			ry = run(yes)
+		}
+		if x.infeasible(no) {
+			no = nil
+		}
+		st = x.mergeAll([]*State{ry, no})
+		if st != nil {
+			st.defers = nil
 		}
 	}
 	x.frames = x.frames[:len(x.frames)-1]
@@ -849,7 +881,13 @@ func (x *Exec) applyContract(st *State, c *Contract, callee *types.Func, recv *V
 		g := x.evalClauseIn(st, r, specPos, q)
 		x.skolem = false
 		if x.noSafety == 0 {
-			x.oblige(st, "call-pre", fmt.Sprintf("call(%s).%s", q, r.Name), g, at.Pos(), nil)
+			props := r.Props
+			if props == nil {
+				if cc := x.eng.cf.Contracts[x.qual]; cc != nil && cc.SafetyProps != nil {
+					props = cc.SafetyProps
+				}
+			}
+			x.oblige(st, "call-pre", fmt.Sprintf("call(%s).%s", q, r.Name), g, at.Pos(), props)
 		}
 		x.assume(st, g)
 	}
@@ -861,6 +899,27 @@ func (x *Exec) applyContract(st *State, c *Contract, callee *types.Func, recv *V
 	}
 	if !c.Pure {
 		x.havocModifies(st, c.Modifies)
+	}
+	// 3b. slice parameters written by the callee: fresh contents after the call
+	type wb struct {
+		idx int
+		val *Value
+	}
+	var writeBacks []wb
+	for i := 0; i < sig.Params().Len() && i < len(args); i++ {
+		pn := sig.Params().At(i).Name()
+		if !contains(c.Writes, pn) || kindOf(args[i].T) != kSlice {
+			continue
+		}
+		post := &Value{T: args[i].T, L: copyLeaves(args[i].L)}
+		for p, t := range post.L {
+			if p == "arr" || strings.HasPrefix(p, "arr.") {
+				post.L[p] = x.b.Fresh("w."+pn+"."+p, t.Sort)
+			}
+		}
+		pre.names["old$"+pn] = args[i]
+		st.names[pn] = post
+		writeBacks = append(writeBacks, wb{i, post})
 	}
 	// 4. results
 	outs := x.freshResults(st, sig, strTrimPkg(q))
@@ -885,7 +944,33 @@ func (x *Exec) applyContract(st *State, c *Contract, callee *types.Func, recv *V
 	}
 	x.oldStack = x.oldStack[:len(x.oldStack)-1]
 	st.names = saved
+	for _, w := range writeBacks {
+		if w.idx < len(at.Args) {
+			x.writeBackSlice(st, at.Args[w.idx], w.val)
+		}
+	}
 	return outs
+}
+
+// writeBackSlice stores the post-call contents of a slice argument into the
+// caller's variable (slices are values in this model).
+func (x *Exec) writeBackSlice(st *State, arg ast.Expr, post *Value) {
+	switch a := unparen(arg).(type) {
+	case *ast.Ident:
+		if obj := x.eng.info.Uses[a]; obj != nil {
+			if cur, ok := st.env[obj]; ok && kindOf(cur.T) == kSlice {
+				nv := &Value{T: cur.T, L: copyLeaves(cur.L)}
+				for p, t := range post.L {
+					if p == "arr" || strings.HasPrefix(p, "arr.") {
+						nv.L[p] = t
+					}
+				}
+				st.env[obj] = nv
+				return
+			}
+		}
+	}
+	x.note("slice-argument-written-by-callee-not-tracked:" + x.eng.srcText(arg))
 }
 
 func (x *Exec) havocModifies(st *State, mods []string) {
